@@ -13,4 +13,4 @@ CONSTANTS
   Ops = {"Get", "Has", "Set", "Delete", "DeletePrefix", "Clear", "Flush", "Close", "Realm", "Batched", "Iterate", "IterMut", "IterateKeys", "WithRealm", "WithExtendedRealm", "BSet", "BDelete", "Cancel", "Commit"}
 VIEW View
 INVARIANTS TypeOK ClosedOK NotClosedOK GetOK HasOK SetOK IterOK StOK
-PROPERTIES Isolation ReadOnly DeleteExact SetDelete BatchLastOp CancelNothing IterSnapshot
+PROPERTIES Isolation ReadOnly DeleteExact SetDelete BatchLastOp CancelNothing IterMutSnapshot
